@@ -1349,7 +1349,7 @@ func c10LongHistory(rep *vk.Report) {
 
 func TestVerif_C10(t *testing.T) {
 	rep := vk.NewReport(t, "C10", "exploration")
-	rep.Rule = "seeds: the lines of testdata/*.jsonl and seeded well-formed values of Event, ReqFilter and the 5 client + 7 server message types (hostile valid-UTF-8 strings, integers up to 2^63-1 / 2^64-1, every optional part present/absent/empty), written both by the repository's encoder and by the monitor's own JSON writer (random whitespace, member order, escape style). Inputs: each seed plus structural mutants (type swap, delete, duplicate key/element, renamed key incl. case/Kelvin variants, extra member, swapped values, number catalogue incl. 1e999/-0/2^63/400 digits, raw string literals with invalid UTF-8 / lone surrogates / NUL, deeper nesting, label swap) and byte/token mutants (bit flip, byte set, insert, delete, truncate at every offset for the testdata lines, duplicate, token delete/duplicate/swap/replace, splice of two seeds, BOM/garbage prefix and suffix, invalid UTF-8, NUL), random byte/token soup, nesting bombs (depth 100..1e5, thorough 1e6) and values with a 256 kB (thorough 1 MB) string. One evaluation = one input sent through ParseClientMsg, its home decoder by json.Unmarshal and by direct UnmarshalJSON, and one other decoder picked by the case RNG (every 32nd input: all 14 decoders in both modes) under recover(). Oracle: no panic; an accepted text yields non-nil parts, the type its label names and fields equal to the generic encoding/json reading of the text; decode(encode(decode(t))) == decode(t); decode(encode(v)) == v for generated values (OK/CLOSED by Message(), nil==empty only where the wire cannot differ). non-trivial = the input derives from a valid seed or was accepted; distinct = distinct (decoder, entry point, producing mutator, outcome class) where the outcome class is ok/panic/normalised error text"
+	rep.Rule = "seeds: the lines of testdata/*.jsonl and seeded well-formed values of Event, ReqFilter and the 5 client + 7 server message types (hostile valid-UTF-8 strings, integers up to 2^63-1 / 2^64-1, every optional part present/absent/empty), written both by the repository's encoder and by the monitor's own JSON writer (random whitespace, member order, escape style). Inputs: each seed plus structural mutants (type swap, delete, duplicate key/element, renamed key incl. case/Kelvin variants, extra member, swapped values, number catalogue incl. 1e999/-0/2^63/400 digits, raw string literals with invalid UTF-8 / lone surrogates / NUL, deeper nesting, label swap) and byte/token mutants (bit flip, byte set, insert, delete, truncate at every offset for the testdata lines, duplicate, token delete/duplicate/swap/replace, splice of two seeds, BOM/garbage prefix and suffix, invalid UTF-8, NUL), random byte/token soup, nesting bombs (depth 100..1e5, thorough 1e6) and values with a 256 kB (thorough 1 MB) string. One evaluation = one input sent through ParseClientMsg, its home decoder by json.Unmarshal and by direct UnmarshalJSON, and one other decoder picked by the case RNG (every 32nd input: all 14 decoders in both modes) under recover(). Oracle: no panic; an accepted text yields non-nil parts, the type its label names and fields equal to the generic encoding/json reading of the text; decode(encode(decode(t))) == decode(t); decode(encode(v)) == v for generated values (OK/CLOSED by Message(), nil==empty only where the wire cannot differ). non-trivial = the input derives from a valid seed or was accepted; distinct = distinct (decoder, entry point, producing mutator, outcome class) where the outcome class is ok/panic/normalised error text; added later: a long history in one process (12 000/150 000 pairwise distinct events, EVENT messages and filters, the early ones re-read at intervals); OK values whose 64-byte id needs escaping; 'fields equal to the reading of the text' accepts the first or the last of several members with one name and exact or case-folded known member names, applied throughout"
 	defer rep.Finish()
 
 	if p := os.Getenv("VERIF_REPLAY"); p != "" {
